@@ -61,6 +61,17 @@ def run(tier, seed):
         sp = SPELL[sc][0]
         texts += ["3 m %s" % sp, "3 s %s" % sp, "12 degC -> %s m" % sp, "12 degC -> m %s" % sp, "12 degC -> 2 %s" % sp,
                   "1 m -> %s" % sp, "1 kg %s -> K" % sp, "(2 K) %s" % sp, "300 K -> %s meter" % sp, "5 %s -> %s hex" % (sp, sp)]
+    # compound targets that START with a scale: TLC enumerates every tail of <= 2 lexemes; all must be refused
+    tails = ["/ s", "* meter", "^2", "(meter)", "degC", "+ 1 K", "%", "m", "2", "- 3", "| 2", ", m", "; m", "= 3", "mod 2", "<< 1",
+             "->", "hex", "'a'", ")", "(", "°F", "K", "per s", "1e3", "of", "//c", "/*c*/", "+05:30"]
+    tt, rt = evalkit.gen_cases("c10tail", "soup", lits=tails, maxbin=2 if thorough else 1)
+    run.add_tlc(rt, "MC_ExprGen soup (tails after a scale target)")
+    if not thorough:
+        tt = tt + [a + " " + b for a in rng.sample(tails, 8) for b in rng.sample(tails, 8)]
+    for tail in tt:
+        for sc in (scales if thorough else rng.sample(scales, 2)):
+            texts.append("12 degC -> %s %s" % (rng.choice(SPELL[sc]), tail))
+            texts.append("300 K -> %s%s" % (SPELL[sc][0], tail if tail[0] in "^(" else " " + tail))
     res, events, verdicts = evalkit.decide(run, texts, "scales", env=env, shards=8)
     run.sample({"leg": "scales", "q": texts[3]})
     # chains: x s1 -> s2 (observed y) ; y s2 -> s3 ; must compose: judged independently, exact fractions
